@@ -98,7 +98,71 @@ func (e *Exec) doSelect(g *Goroutine, cases []selCase, hasDefault bool, in ssa.I
 			ready = append(ready, i)
 		}
 	}
-	// timers may or may not have fired: a ready timer case is optional when something else can happen
+	// A timer or a context deadline may fire at any time, but time passing while other
+	// goroutines can still run is the exceptional order: it is explored only against the delay
+	// budget. Otherwise the select lets the others run first (they are re-examined when this
+	// goroutine is resumed), so that a loop around a time-out cannot starve the goroutine whose
+	// answer it is waiting for.
+	isSpont := func(i int) bool {
+		sc := cases[i]
+		c := sc.c
+		return !sc.send && len(c.buf) == 0 && !c.closed && (c.timer || (c.ctx != nil && c.ctx.timeout))
+	}
+	if len(ready) > 1 {
+		// a time-out that beats an operation which is ready as well: against the budget only
+		var solid []int
+		for _, i := range ready {
+			if !isSpont(i) {
+				solid = append(solid, i)
+			}
+		}
+		if len(solid) > 0 && len(solid) < len(ready) {
+			if e.preempts > 0 && e.choose(2) == 1 {
+				e.preempts--
+				e.sched++
+				var sp []int
+				for _, i := range ready {
+					if isSpont(i) {
+						sp = append(sp, i)
+					}
+				}
+				ready = sp
+			} else {
+				ready = solid
+			}
+		}
+	}
+	if len(ready) > 0 && !hasDefault {
+		spont := true
+		for _, i := range ready {
+			if !isSpont(i) {
+				spont = false
+				break
+			}
+		}
+		if spont {
+			others := false
+			for _, o := range e.runnable() {
+				if o != g {
+					others = true
+					break
+				}
+			}
+			if others {
+				fire := false
+				if e.preempts > 0 && e.choose(2) == 1 {
+					fire = true
+					e.preempts--
+					e.sched++
+				}
+				if !fire {
+					e.waits[g] = &waitInfo{cases: cases}
+					e.block(g, fmt.Sprintf("chan-op (time-out pending) at %s", e.pos2(in)), func() bool { return true })
+					return 0, nil, false, true
+				}
+			}
+		}
+	}
 	if len(ready) > 0 {
 		k := ready[e.choose(len(ready))]
 		sc := cases[k]
@@ -107,15 +171,18 @@ func (e *Exec) doSelect(g *Goroutine, cases []selCase, hasDefault bool, in ssa.I
 			if c.closed {
 				panic(e.panicEnd(in, "send on closed channel"))
 			}
+			e.rel(g, c)
 			if len(c.buf) < c.cap {
 				c.buf = append(c.buf, sc.v)
 				return k, nil, false, false
 			}
 			h, hi := e.partner(g, c, false)
+			e.acq(h, c)
 			hw := e.waitOf(h)
 			hw.done, hw.doneIdx, hw.doneVal, hw.doneOk = true, hi, sc.v, true
 			return k, nil, false, false
 		}
+		e.acq(g, c)
 		if len(c.buf) > 0 {
 			v := c.buf[0]
 			c.buf = c.buf[1:]
@@ -135,6 +202,8 @@ func (e *Exec) doSelect(g *Goroutine, cases []selCase, hasDefault bool, in ssa.I
 			return k, nil, false, false
 		}
 		h, hi := e.partner(g, c, true)
+		e.rel(h, c)
+		e.acq(g, c)
 		hw := e.waitOf(h)
 		v := hw.cases[hi].v
 		hw.done, hw.doneIdx = true, hi
